@@ -145,10 +145,9 @@ class refinedmesh(mesh1d):
     " class defining a mesh with 2 uniform parts and a cell ratio"
     def __init__(self, ncell=100, length=1., ratio=2., nratioa=1, nratiob=1):
         mesh1d.__init__(self, ncell, length)
-        dx1 = (nratioa+nratiob) * length / ((nratioa+ratio*nratiob)*ncell)
-        #dx2 = ratio*dx1
         nc1 = int(round((ncell*nratioa)/(nratioa+nratiob)))
         nc2 = ncell-nc1
+        dx1 = length / (nc1+ratio*nc2) # cell sizes dx1 and ratio*dx1 fill the length with the actual cell counts
         self.xf = np.append(
                     np.linspace(    0.0, dx1*nc1, nc1, endpoint=False),
                     np.linspace(dx1*nc1,  length, nc2+1) )
